@@ -746,3 +746,157 @@ def targeted_corpus():
     B.p.discrete_time = True
     emit("time-model:discrete-timed-goal-only", ["position:time-model"], B)
     return out
+
+
+# ---------------------------------------------------------------------------------------------- other problem classes
+def other_classes_corpus():
+    """Hand-written contingent / multi-agent / hierarchical / scheduling problems (and Problems with simulated effects)
+    that use condition and effect features in class-specific positions: sensing-action preconditions, agent goals,
+    method preconditions, task-network constraints, activity conditions, scoped constraints."""
+    import unified_planning as up
+    from unified_planning.shortcuts import (UserType, BoolType, IntType, RealType, Fluent, Object, InstantaneousAction,
+                                            DurativeAction, Problem, Not, Or, And, Equals, Exists, Forall, Variable, Dot, LT,
+                                            Implies, StartTiming, EndTiming, ClosedTimeInterval, SimulatedEffect, Plus)
+    from unified_planning.model.contingent import ContingentProblem, SensingAction
+    from unified_planning.model.multi_agent import MultiAgentProblem, Agent
+    from unified_planning.model.htn import HierarchicalProblem, Method
+    from unified_planning.model.scheduling import SchedulingProblem
+    out = []
+    Loc = UserType("C10Loc")
+    Sub = UserType("C10Sub", Loc)
+
+    # ---- contingent
+    for variant in ("negated-sensing-precondition", "conditional-effect-equality", "plain"):
+        p = ContingentProblem("contingent-" + variant)
+        l1, l2 = p.add_object("l1", Loc), p.add_object("l2", Sub)
+        at = p.add_fluent("at", Loc)
+        hidden = p.add_fluent("hidden", BoolType(), x=Loc)
+        free = p.add_fluent("free", default_initial_value=True)
+        s = SensingAction("sense", x=Loc)
+        s.add_observed_fluent(hidden(s.x))
+        s.add_precondition(Not(free) if variant == "negated-sensing-precondition" else free)
+        mv = InstantaneousAction("mv", a=Loc, b=Sub)
+        mv.add_precondition(Equals(at, mv.a))
+        if variant == "conditional-effect-equality":
+            mv.add_effect(free, False, Or(Equals(at, l1), hidden(mv.a)))
+        mv.add_effect(at, mv.b)
+        p.add_actions([s, mv])
+        p.set_initial_value(at, l1)
+        p.add_oneof_initial_constraint([hidden(l1), hidden(l2)])
+        p.add_goal(Equals(at, l2))
+        out.append(("other:contingent:" + variant, ["other-class", "contingent"], p))
+
+    # ---- multi-agent
+    for variant in ("public-goal-negation", "private-goal-disjunction", "quantified-precondition-conditional-increase",
+                    "durative-action-negated-condition-conditional-effect"):
+        p = MultiAgentProblem("ma-" + variant)
+        conn = Fluent("conn", BoolType(), a=Loc, b=Loc)
+        p.ma_environment.add_fluent(conn, default_initial_value=False)
+        l1, l2 = Object("l1", Loc), Object("l2", Sub)
+        p.add_objects([l1, l2])
+        pos = Fluent("pos", Loc)
+        cnt = Fluent("cnt", IntType(0, 10))
+        busy = Fluent("busy")
+        mv = InstantaneousAction("mv", a=Loc, b=Loc)
+        mv.add_precondition(Equals(pos, mv.a))
+        if variant.startswith("quantified"):
+            v = Variable("z", Sub)
+            mv.add_precondition(Exists(conn(mv.a, v), v))
+            mv.add_increase_effect(cnt, 1, Not(busy))
+        mv.add_effect(pos, mv.b)
+        if variant.startswith("durative"):
+            mv = DurativeAction("mv", a=Loc, b=Loc)
+            mv.set_fixed_duration(2)
+            mv.add_condition(StartTiming(), Not(busy))
+            mv.add_condition(ClosedTimeInterval(StartTiming(), EndTiming()), Or(Equals(pos, mv.a), Equals(pos, mv.b)))
+            mv.add_effect(EndTiming(), pos, mv.b, Equals(pos, mv.a))
+            mv.add_decrease_effect(EndTiming(), cnt, 1)
+        for i in range(2):
+            ag = Agent("r%d" % i, p)
+            ag.add_fluent(pos)
+            ag.add_fluent(cnt, default_initial_value=0)
+            ag.add_fluent(busy, default_initial_value=False)
+            ag.add_action(mv)
+            if variant == "public-goal-negation":
+                ag.add_public_goal(Not(busy))
+            if variant == "private-goal-disjunction":
+                ag.add_private_goal(Or(busy, Equals(pos, l2)))
+            p.add_agent(ag)
+            p.set_initial_value(Dot(ag, pos), l1)
+        p.add_goal(Equals(Dot(p.agents[0], pos), l2))
+        out.append(("other:multi-agent:" + variant, ["other-class", "multi-agent"], p))
+
+    # ---- hierarchical
+    for variant in ("method-precondition-negation-forall", "constraint-disjunction-partial-order", "plain-total-order"):
+        p = HierarchicalProblem("htn-" + variant)
+        l1, l2 = p.add_object("l1", Loc), p.add_object("l2", Sub)
+        loc = p.add_fluent("loc", Loc)
+        conn = Fluent("conn", BoolType(), a=Loc, b=Loc)
+        p.add_fluent(conn, default_initial_value=True)
+        mv = InstantaneousAction("mv", a=Loc, b=Loc)
+        mv.add_precondition(Equals(loc, mv.a))
+        mv.add_effect(loc, mv.b)
+        p.add_action(mv)
+        go = p.add_task("go", target=Loc)
+        m = Method("go-m", source=Loc, target=Loc)
+        m.set_task(go, m.parameter("target"))
+        if variant.startswith("method-precondition"):
+            v = Variable("z", Loc)
+            m.add_precondition(Not(Equals(loc, m.target)))
+            m.add_precondition(Forall(conn(m.source, v), v))
+        t1 = m.add_subtask(mv, m.source, m.target)
+        p.add_method(m)
+        g1 = p.task_network.add_subtask(go, l2)
+        if variant.startswith("constraint"):
+            fv = p.task_network.add_variable("fv", Loc)
+            g2 = p.task_network.add_subtask(go, fv)
+            p.task_network.add_constraint(Or(Equals(fv, l1), Equals(fv, l2)))
+        elif variant.startswith("plain"):
+            g2 = p.task_network.add_subtask(go, l1)
+            p.task_network.set_ordered(g1, g2)
+        p.set_initial_value(loc, l1)
+        out.append(("other:hierarchical:" + variant, ["other-class", "hierarchical"], p))
+
+    # ---- scheduling
+    for variant in ("optional-activity-scoped-constraint", "negated-activity-condition", "conditional-base-effect"):
+        p = SchedulingProblem("sched-" + variant)
+        res = p.add_resource("res", capacity=2)
+        flag = p.add_fluent("flag", BoolType(), default_initial_value=False)
+        a1 = p.add_activity("a1", duration=3, optional=(variant.startswith("optional")))
+        a1.uses(res)
+        a2 = p.add_activity("a2", duration=2)
+        a2.uses(res, amount=1)
+        if variant.startswith("optional"):
+            a1.add_constraint(LT(a1.end, a2.start))
+        if variant.startswith("negated"):
+            a2.add_condition(ClosedTimeInterval(StartTiming(), EndTiming()), Not(flag))
+        if variant.startswith("conditional"):
+            p.add_effect(5, flag, True, Not(flag))
+            p.add_constraint(Or(LT(a1.end, a2.start), LT(a2.end, a1.start)))
+        out.append(("other:scheduling:" + variant, ["other-class", "scheduling"], p))
+
+    # ---- simulated effects (class Problem: full correspondence)
+    x = Fluent("c10x", IntType())
+    y = Fluent("c10y", RealType())
+    w = Fluent("c10w", RealType(0, 9))
+
+    def fun(problem, state, actual_params):
+        return [up.model.FNode] and []
+    for variant in ("instantaneous", "durative"):
+        p = Problem("sim-" + variant)
+        p.add_fluent(x, default_initial_value=0)
+        p.add_fluent(y, default_initial_value=0)
+        p.add_fluent(w, default_initial_value=1)
+        if variant == "instantaneous":
+            a = InstantaneousAction("a")
+            a.add_precondition(LT(x, 5))
+            a.set_simulated_effect(SimulatedEffect([x()], fun))
+        else:
+            a = DurativeAction("a")
+            a.set_fixed_duration(Plus(w, 1))
+            a.add_condition(StartTiming(), LT(x, 5))
+            a.set_simulated_effect(EndTiming(), SimulatedEffect([x(), y()], fun))
+        p.add_action(a)
+        p.add_goal(LT(2, x))
+        out.append(("other:simulated-effect:" + variant, ["other-class", "simulated-effect"], p))
+    return out
